@@ -37,6 +37,11 @@ def decide(pid, tier, units, scratch, run_unit):
         for u, f in futs:
             for r in f.result():
                 results.append((u, r))
+    for u, r in results:
+        cc = r.get('crosscheck')
+        if r['status'] == 'ok' and cc and not cc.get('agree'):
+            r['status'] = 'undecided'
+            r['reason'] = 'thorough cross-check: the second back end (%s) does not reproduce the obligation statuses (%s %s)' % (cc.get('solver'), cc.get('status'), cc.get('reason', '')[:200])
     undecided = [(u, r) for u, r in results if r['status'] != 'ok']
     viol = []      # (unit, result, obligation)
     knownhits = {}  # kid -> list
